@@ -1026,6 +1026,7 @@ func (in *Interp) execSwitch(st *State, x *ast.SwitchStmt) (*State, bool) {
 	allTerm := true
 	hasDefault := false
 	var prior []string
+	var priorExprs []ast.Expr // case expressions of the clauses above (none of them matched)
 	saveBreaks := in.breaks
 	in.breaks = nil
 	for ci, cc0 := range x.Body.List {
@@ -1050,6 +1051,27 @@ func (in *Interp) execSwitch(st *State, x *ast.SwitchStmt) (*State, bool) {
 			prior = append(prior, alts...)
 		}
 		sc := st.clone()
+		// what taking this clause says about the tag: it equals the (single) case value, and none of the
+		// values of the clauses above; for a tag-less switch the clause's condition holds and those above do not
+		small := len(x.Body.List) <= 8 // (a dispatcher with a hundred cases says nothing useful about lengths)
+		for _, pe := range priorExprs {
+			if !small {
+				break
+			}
+			if x.Tag != nil {
+				in.assume(sc, &ast.BinaryExpr{X: x.Tag, Op: token.NEQ, Y: pe}, true)
+			} else {
+				in.assume(sc, pe, false)
+			}
+		}
+		if len(cc.List) == 1 && small {
+			if x.Tag != nil {
+				in.assume(sc, &ast.BinaryExpr{X: x.Tag, Op: token.EQL, Y: cc.List[0]}, true)
+			} else {
+				in.assume(sc, cc.List[0], true)
+			}
+		}
+		priorExprs = append(priorExprs, cc.List...)
 		in.guards = append(in.guards, c)
 		in.fellThrough = false
 		body := cc.Body
